@@ -124,6 +124,12 @@ std::vector<Sector> decode_mfm_track(const BitStream& bits, bool verbose)
   Sector sec;
   int sec_size;
   enum MfmDecodeState state = MfmDecodeState::LookingForSectorHeader;
+  // A floppy disc controller only accepts a data address mark which
+  // follows closely after the ID field (43 byte times for MFM in the
+  // WD177x).  We are more generous than that, but a mark which is
+  // further away than this belongs to some other sector.
+  constexpr size_t max_id_to_data_mark_bits = 64u * 16u;
+  size_t id_end = 0;
   while (bits_avail)
     {
       // Look for the bytes leading up to an address mark:
@@ -135,6 +141,19 @@ std::vector<Sector> decode_mfm_track(const BitStream& bits, bool verbose)
       if (!found)
 	break;
       thisbit = found->first + 1;
+      if (state == MfmDecodeState::LookingForRecord &&
+	  thisbit - id_end > max_id_to_data_mark_bits)
+	{
+	  // The record belonging to the sector ID we read is missing;
+	  // what we found belongs to a later sector, so it should be
+	  // examined as a possible sector ID instead.
+	  if (verbose)
+	    {
+	      std::cerr << "No record follows the ID of sector "
+			<< sec.address << "\n";
+	    }
+	  state = MfmDecodeState::LookingForSectorHeader;
+	}
       // The next byte is an address mark; either the ID address mark
       // (which appears after gap3) or the data address mark (which
       // appears after gap2).
@@ -171,6 +190,7 @@ std::vector<Sector> decode_mfm_track(const BitStream& bits, bool verbose)
 		    if (decode_sector_address_and_size(header.data(), &sec.address, &sec_size,
 						       error))
 		      {
+			id_end = thisbit;
 			state = MfmDecodeState::LookingForRecord;
 			continue;
 		      }
